@@ -125,6 +125,103 @@ theorem recompress_keeps_fields (f : Frame) (d : Option Bytes) :
   | none => simp
   | some d => simp only; split <;> simp <;> omega
 
+/-- an animation chunk (fcTL or fdAT) -/
+def isAnim (c : Chunk) : Bool := c.name = nm "fcTL" || c.name = nm "fdAT"
+
+/-- the sequence numbers of a chunk list's animation chunks, in file order -/
+def animSeqs (cs : List Chunk) : List Nat := (cs.filter isAnim).map seqOf
+
+/-- **The whole output is numbered consecutively from zero**, wherever the ancillary chunks sit: if
+    the fcTL chunks in front of the image data (at most the default image's) carry 0, 1, … in order -
+    which is all a valid input can have there - and no animation chunk hides among the other
+    ancillary chunks, then the animation chunks of the written file carry 0, 1, 2, … in file order.
+    (The start number for the frames is the *count* of fcTL chunks before IDAT, not a guess from the
+    chunk next to IDAT - the seeded change C10i.) -/
+theorem output_sequence_from_zero (p : PngData)
+    (hfd : ∀ c ∈ p.aux, c.name ≠ nm "fdAT")
+    (hpre : (((splitAtIdat p.aux).1).filter fun c => c.name = nm "fcTL").map seqOf =
+      List.range (((splitAtIdat p.aux).1).filter fun c => c.name = nm "fcTL").length)
+    (hpost : ∀ c ∈ (splitAtIdat p.aux).2, c.name ≠ nm "fcTL")
+    (hsz : (((splitAtIdat p.aux).1).filter fun c => c.name = nm "fcTL").length + 2 * p.frames.length ≤ 2 ^ 32) :
+    animSeqs (outputChunks p) =
+      List.range ((((splitAtIdat p.aux).1).filter fun c => c.name = nm "fcTL").length + 2 * p.frames.length) := by
+  generalize hsp : splitAtIdat p.aux = sp at hpre hpost hsz
+  obtain ⟨pre, post⟩ := sp
+  simp only at hpre hpost hsz
+  have hpre_sub : ∀ c ∈ pre, c ∈ p.aux := by
+    intro c hc
+    have : pre = p.aux.takeWhile fun c => c.name ≠ nm "IDAT" := by
+      have := congrArg Prod.fst hsp; simpa [splitAtIdat] using this.symm
+    rw [this] at hc
+    exact (List.takeWhile_sublist _).subset hc
+  have hpost_sub : ∀ c ∈ post, c ∈ p.aux := by
+    intro c hc
+    have : post = (p.aux.drop ((p.aux.takeWhile fun c => c.name ≠ nm "IDAT").length + 1)).filter fun c => c.name ≠ nm "IDAT" := by
+      have := congrArg Prod.snd hsp; simpa [splitAtIdat] using this.symm
+    rw [this] at hc
+    exact (List.drop_sublist _ _).subset (List.mem_filter.mp hc).1
+  have n1 : nm "IHDR" ≠ nm "fcTL" := by decide
+  have n2 : nm "IHDR" ≠ nm "fdAT" := by decide
+  have n3 : nm "IDAT" ≠ nm "fcTL" := by decide
+  have n4 : nm "IDAT" ≠ nm "fdAT" := by decide
+  have a1 : isAnim ⟨nm "IHDR", ihdrBytes p.raw.ihdr⟩ = false := by simp [isAnim, n1, n2]
+  have a2 : isAnim ⟨nm "IDAT", p.idat⟩ = false := by simp [isAnim, n3, n4]
+  have a3 : isAnim ⟨nm "IEND", []⟩ = false := by decide
+  unfold animSeqs outputChunks
+  rw [hsp]
+  simp only [List.filter_append, List.filter_cons, List.filter_nil, a1, a2, a3, Bool.false_eq_true, if_false,
+    List.nil_append, List.append_nil, List.map_append]
+  -- ordinary chunks in front: none is an animation chunk
+  have h1 : (pre.filter fun c => !isAfterPlte c.name).filter isAnim = [] := by
+    rw [List.filter_eq_nil_iff]
+    intro c hc
+    obtain ⟨hcp, hn⟩ := List.mem_filter.mp hc
+    have hfdc := hfd c (hpre_sub c hcp)
+    simp only [isAnim, Bool.or_eq_true, decide_eq_true_eq, not_or]
+    refine ⟨?_, hfdc⟩
+    intro hf
+    simp [isAfterPlte, hf] at hn
+  have h2 : (keyChunks p.raw.ihdr.ct).filter isAnim = [] := by
+    rw [List.filter_eq_nil_iff]
+    intro c hc
+    have e1 : nm "PLTE" ≠ nm "fcTL" := by decide
+    have e2 : nm "PLTE" ≠ nm "fdAT" := by decide
+    have e3 : nm "tRNS" ≠ nm "fcTL" := by decide
+    have e4 : nm "tRNS" ≠ nm "fdAT" := by decide
+    rcases C02.keyChunks_names _ c hc with h | h <;> simp [isAnim, h, e1, e2, e3, e4]
+  have h3 : (pre.filter fun c => isAfterPlte c.name).filter isAnim = pre.filter fun c => c.name = nm "fcTL" := by
+    rw [List.filter_filter]
+    apply List.filter_congr
+    intro c hc
+    have hfdc := hfd c (hpre_sub c hc)
+    by_cases hf : c.name = nm "fcTL"
+    · simp [isAnim, isAfterPlte, hf]
+    · simp [isAnim, hf, hfdc]
+  have h4 : (frameChunks p.frames (pre.filter fun c => c.name = nm "fcTL").length).filter isAnim =
+      frameChunks p.frames (pre.filter fun c => c.name = nm "fcTL").length := by
+    rw [List.filter_eq_self]
+    intro c hc
+    rcases C02.frameChunks_names _ _ c hc with h | h <;> simp [isAnim, h]
+  have h5 : post.filter isAnim = [] := by
+    rw [List.filter_eq_nil_iff]
+    intro c hc
+    simp only [isAnim, Bool.or_eq_true, decide_eq_true_eq, not_or]
+    exact ⟨hpost c hc, hfd c (hpost_sub c hc)⟩
+  have hcount : ((pre.filter fun c => isAfterPlte c.name).filter fun c => c.name = nm "fcTL") =
+      pre.filter fun c => c.name = nm "fcTL" := by
+    rw [List.filter_filter]
+    apply List.filter_congr
+    intro c _
+    by_cases hf : c.name = nm "fcTL"
+    · simp [isAfterPlte, hf]
+    · simp [hf]
+  rw [h1, h2, h3, hcount, h4, h5]
+  simp only [List.map_nil, List.nil_append, List.append_nil]
+  rw [hpre, sequence_consecutive _ _ hsz, List.range_eq_range', List.range_eq_range']
+  have := @List.range'_append_1 0 (pre.filter fun c => c.name = nm "fcTL").length (2 * p.frames.length)
+  rw [Nat.zero_add] at this
+  exact this
+
 /-- Non-vacuity -/
 example : FrameWF ⟨3, 2, 1, 0, 5, 100, 1, 0, [9]⟩ := by unfold FrameWF; decide
 
